@@ -623,6 +623,14 @@ Example C09_add_word_nonvacuous :
      s_dlock (y_world y) = true /\ step (CRun 1) y = None /\ step (CRun 0) y <> None).
 Proof. exact (conj two_words_run lock_blocks_second_load). Qed.
 
+(* HISTORY, labelled: with the add-word instrs as they were BEFORE cfbe845 (exec_before_cfbe845: no lock) the schedule
+   "both load, then both save" ends with the first word overwritten; the current dispatcher refuses that schedule *)
+Example C09_add_word_lost_before_cfbe845 :
+  (exists y, run_before_cfbe845 lost_word_schedule (init [AddUser 5 (UFile 0 0); AddUser 6 (UFile 0 1)] (world0 0)) = Some y /\
+     quiescentb y = true /\ w_udict (y_world y) = [6]) /\
+  run lost_word_schedule (init [AddUser 5 (UFile 0 0); AddUser 6 (UFile 0 1)] (world0 0)) = None.
+Proof. exact word_lost_before_cfbe845. Qed.
+
 (* ================================================================================================
    Phase 4 (c): the call skeleton of the handlers in harper-ls/src/backend.rs, re-read from /repo on every run by
    tools/tables/c09handlers.py (Model/Tables_c09handlers.v), is the one the hand-written models follow
